@@ -30,6 +30,8 @@ def enumerate_model(v, name):
     wd = pi2v.workdir(name)
     res = pi2v.run_tlc('MC_ProofExp', CFG.format(bs=50), wd, timeout=1200)
     pi2v.tlc_must_be_clean(res, name)
+    if res.fails:
+        raise pi2v.MachineryError(f'spec/ProofExpRun.tla: the compile theorem fails in the model itself: {res.fails[:3]}')
     v.add_tlc(res)
     exps = []
     for line in res.out.splitlines():
@@ -56,12 +58,16 @@ def run(v, tag, limit=None, rng=None):
         rng.shuffle(mps)
         rng.shuffle(rest)
         exps = mps[:limit // 3] + rest[:limit - min(len(mps), limit // 3)]
-    reqs = [{'cmd': 'expr', 'module': {'lib': False, 'proofs': [recipe(e['r'])]}, 'interps': True, 'traces': []} for e in exps]
+    reqs = [{'cmd': 'expr', 'module': {'lib': False, 'proofs': [recipe(e['r'])]}, 'interps': True, 'traces': [False] if e['ok'] and e['run'] and not e['und'] else []} for e in exps]
     out = lem.run_applications(reqs)
     cases = []
     for e, r in zip(exps, out):
         c = {'r': e['r'], 'built': bool(r.get('built')), 'advertised': (r.get('advertised') or [pi2v.BOT])[0] if r.get('built') else pi2v.BOT,
-             'interps': r.get('interps', []) if r.get('built') else []}
+             'interps': r.get('interps', []) if r.get('built') else [], 'hascalls': False, 'calls': []}
+        if r.get('built') and 'trace' in r and r['trace']['error'] is None:
+            ms = [ev['m'] for ev in r['trace']['events']]
+            if 'into_proof_phase' in ms and ms[-1] == 'publish_proof':
+                c['hascalls'], c['calls'] = True, ms[ms.index('into_proof_phase') + 1:-1]
         if any('RecursionError' in i['out'] for i in c['interps']):
             continue
         cases.append(c)
